@@ -47,6 +47,43 @@ func runC06SNI(c *Ctx) {
 	}
 	qs := []q{{"alpha.sni.example", 0}, {"beta.sni.example", 1}, {"beta-alt.sni.example", 1}, {"x.wild.sni.example", 2}, {"gamma.sni.example", 3},
 		{"BETA.sni.example", 1}, {"gamma.sni.example.", 3}, {"nobody.sni.example", -1}, {"deep.x.wild.sni.example", -1}}
+	// with session tickets on and a small client session cache: a walk over more names than the cache holds and back again.
+	// One server configuration (one set of ticket keys) answers for all names, so whatever session the client offers the
+	// server can open — the certificate the client ends up reporting must still be the one of the name it asked for.
+	for _, capacity := range []int{1, 2, 3} {
+		for _, ver := range []uint16{gmtls.VersionTLS12, gmtls.VersionTLS10} {
+			scfg := &gmtls.Config{Certificates: []gmtls.Certificate{ids[0].cert, ids[1].cert, ids[2].cert, ids[3].cert}, MaxVersion: ver,
+				Time: func() timeT { return fixedNow }, Rand: mon.NewRNG(r.U64())}
+			scfg.BuildNameToCertificate()
+			cache := gmtls.NewLRUClientSessionCache(capacity)
+			walk := []q{{"alpha.sni.example", 0}, {"beta.sni.example", 1}, {"gamma.sni.example", 3}, {"x.wild.sni.example", 2}, {"alpha.sni.example", 0}, {"beta.sni.example", 1}, {"beta.sni.example", 1}, {"gamma.sni.example", 3}, {"alpha.sni.example", 0}}
+			for step, qq := range walk {
+				ccfg := &gmtls.Config{ServerName: qq.ask, RootCAs: pool, MinVersion: ver, MaxVersion: ver, Time: func() timeT { return fixedNow }, Rand: mon.NewRNG(r.U64()), ClientSessionCache: cache}
+				out := handshakePair(ccfg, scfg, nil)
+				w := map[string]interface{}{"cache_capacity": capacity, "version": fmt.Sprintf("%04x", ver), "step": step, "asked_for": qq.ask, "client_error": errStr(out.cli.err), "server_error": errStr(out.srv.err)}
+				if !out.cli.completed || !out.srv.completed {
+					rep.Violation("C06/Handshake/supported-combination-fails/sni-with-session-cache", fmt.Sprintf("step %d, asked for %s: %v / %v", step, qq.ask, out.cli.err, out.srv.err), w)
+					break
+				}
+				w["resumed"] = out.cli.state.DidResume
+				pc := out.cli.state.PeerCertificates
+				if len(pc) == 0 || !bytes.Equal(pc[0].Raw, ids[qq.want].der) {
+					got := "none"
+					if len(pc) > 0 {
+						got = fmt.Sprint(pc[0].DNSNames)
+					}
+					rep.Violation("C06/sni/client-reports-the-certificate-of-another-name", fmt.Sprintf("step %d of a walk over %d names with a cache of %d: asked for %s, reports %s (resumed=%v)", step, 4, capacity, qq.ask, got, out.cli.state.DidResume), w)
+				}
+				if out.cli.state.DidResume != out.srv.state.DidResume {
+					rep.Violation("C06/ConnectionState/ends-disagree", fmt.Sprintf("DidResume client %v server %v", out.cli.state.DidResume, out.srv.state.DidResume), w)
+				}
+				c06Exchange(rep, out.cli.conn, out.srv.conn, r.U64(), 200, r, w, "C06")
+				out.cli.conn.Close()
+				out.srv.conn.Close()
+				rep.Eval(fmt.Sprintf("sni/session-cache-walk/cap=%d/ver=%04x/resumed=%v", capacity, ver, out.cli.state.DidResume))
+			}
+		}
+	}
 	for vi, ver := range []uint16{gmtls.VersionTLS12, gmtls.VersionTLS10} {
 		for mi, mode := range []string{"tls", "tls+GetCertificate-declining"} {
 			for qi, qq := range qs {
